@@ -38,7 +38,8 @@ MANIFEST = {
              "heights h+1..tip, none for h=0, error above the tip, as blockManager's); a source that closes its "
              "channel or blocks in NotificationsSinceHeight is not modelled. A Cancel() that returns while Stop() "
              "is running is judged when Stop() returns. Trailing surplus deliveries are looked for only briefly "
-             "after quiescence.",
+             "after quiescence."
+             " The per-subscriber queue (lnd/queue.ConcurrentQueue) is itself specified (specs/ConcQueue: one action per arm of its goroutine's select, overflow list, producer/consumer schedules with the consumer stalled for whole segments) and bound to the real queue by TLC-judged settled-step traces; long-stall free runs push thousands of events past a subscriber that does not read.",
         design="4 C11", technique="TLA+ spec + TLC exhaustive (interleaving model) + spec-to-code replay of every "
                                   "transition of the settled graph + TLC-judged free-running traces"),
 }
